@@ -25,6 +25,7 @@ type FR<'a> = FaultReader<EndianSlice<'a, RunTimeEndian>>;
 pub const FAMILIES: &[(&str, u64)] = &[
     ("uctx", 40),
     ("entrybuf", 14),
+    ("cursor", 14),
     ("tree", 14),
     ("clones", 18),
     ("resume", 8),
@@ -120,7 +121,7 @@ pub fn gen_case(tier: Tier, master: u64, i: u64) -> Case {
                 c.steps.push(vec![rng.below(N_STEP_KINDS) as i64, rng.below(24) as i64, rng.below(64) as i64, f[0], f[1], f[2]]);
             }
         }
-        "entrybuf" | "tree" | "clones" | "abbrevcache" => {
+        "entrybuf" | "cursor" | "tree" | "clones" | "abbrevcache" => {
             c.note = "asm".into();
             if rng.chance(1, 3) {
                 if let Some(m) = wl::writer::dwarf_sections(&mut rng, be, asz as u8) {
@@ -444,6 +445,84 @@ fn run_info<'a>(case: &'a Case, ctx: &mut Ctx<'_>, mk: &dyn Fn(&'a [u8]) -> FR<'
                             ctx.violate("c20_entry_buffer", format!("reused ok={} fresh ok={}", a.is_ok(), b.is_ok()));
                             return;
                         }
+                    }
+                }
+            }
+            ctx.end();
+        }
+        "cursor" => {
+            // a cursor used across entries, nulls and errors: after every step its observable
+            // state (result, current entry) must be what a fresh cursor positioned at the
+            // same offset shows after the same step under the same fault plan
+            let mut si = 0usize;
+            for h in &headers {
+                let abbrevs = match dwarf.abbreviations(h) {
+                    Ok(a) => a,
+                    Err(_) => continue,
+                };
+                let mut used = h.entries(&abbrevs);
+                let mut guard = LoopGuard::new(ctx.iter_bound(n));
+                loop {
+                    ctx.enter("reuse.cursor.step");
+                    if !guard.step(ctx) {
+                        break;
+                    }
+                    let step = &case.steps[si % case.steps.len()];
+                    si += 1;
+                    let plan = match if si % 2 == 0 { plan_of(step) } else { FaultPlan::None } {
+                        FaultPlan::StickyFrom(k, e) => FaultPlan::TransientAt(k % 10, e),
+                        FaultPlan::TransientAt(k, e) => FaultPlan::TransientAt(k % 10, e),
+                        p => p,
+                    };
+                    let use_dfs = step[0] % 2 == 1;
+                    let at = used.next_offset();
+                    ctx.sim.arm(FaultPlan::None);
+                    let fresh = h.entries_at_offset(&abbrevs, at);
+                    let describe = |ctx: &mut Ctx<'_>, cur: &gimli::EntriesCursor<'_, FR<'a>>, res: String| -> String {
+                        ctx.capture_begin();
+                        ev!(ctx, "{}", res);
+                        match cur.current() {
+                            Some(e) => {
+                                ev!(ctx, "current off={} tag={:?} children={}", e.offset().0, e.tag(), e.has_children());
+                                for a in e.attrs() {
+                                    ev!(ctx, "  {:?} {:?}", a.name(), a.form());
+                                    crate::drv::line::log_attr_value(ctx, "   v", &a.raw_value());
+                                }
+                            }
+                            None => {
+                                ev!(ctx, "current none");
+                            }
+                        }
+                        ev!(ctx, "next_offset {}", cur.next_offset().0);
+                        ctx.capture_end()
+                    };
+                    ctx.sim.arm(plan);
+                    let r1 = if use_dfs { used.next_dfs().map(|o| o.is_some()) } else { used.next_entry() };
+                    ctx.sim.arm(FaultPlan::None);
+                    let end = matches!(r1, Ok(false));
+                    let s1 = describe(ctx, &used, match &r1 {
+                        Ok(b) => format!("ok {}", b),
+                        Err(e) => format!("err {}", crate::ctx::err_name(e)),
+                    });
+                    if let Ok(mut fresh) = fresh {
+                        // next_dfs skips nulls, which a fresh cursor does identically
+                        ctx.sim.arm(plan);
+                        let r2 = if use_dfs { fresh.next_dfs().map(|o| o.is_some()) } else { fresh.next_entry() };
+                        ctx.sim.arm(FaultPlan::None);
+                        let s2 = describe(ctx, &fresh, match &r2 {
+                            Ok(b) => format!("ok {}", b),
+                            Err(e) => format!("err {}", crate::ctx::err_name(e)),
+                        });
+                        if s1 != s2 {
+                            ctx.violate("c20_cursor", format!("cursor at offset {}: {}", at.0, first_diff(&s1, &s2)));
+                            return;
+                        }
+                    }
+                    if r1.is_err() {
+                        ctx.probe("reuse_step_failed");
+                    }
+                    if end || r1.is_err() {
+                        break;
                     }
                 }
             }
@@ -1045,7 +1124,7 @@ pub fn run<'a>(case: &'a Case, ctx: &mut Ctx<'_>) {
             3 => run_uctx::<Unbounded>(case, ctx, &mk),
             _ => run_uctx::<StoreOnHeap>(case, ctx, &mk),
         },
-        "entrybuf" | "tree" | "abbrevcache" => run_info(case, ctx, &mk),
+        "entrybuf" | "cursor" | "tree" | "abbrevcache" => run_info(case, ctx, &mk),
         "clones" => run_clones(case, ctx, &mk),
         "resume" => run_resume(case, ctx, &mk),
         other => panic!("e6 family {}", other),
